@@ -83,6 +83,15 @@ def _handle_literal(value: Union[str, int, float, bool]):
     return str(value)
 
 
+_STRING_LITERAL = re.compile(r'("[^"]*")')
+
+
+def _replace_outside_strings(text: str, old: str, new: str) -> str:
+    """str.replace restricted to the code: the content of string literals is left as written."""
+    parts = _STRING_LITERAL.split(text)  # odd positions are the string literals
+    return "".join(p if i % 2 else p.replace(old, new) for i, p in enumerate(parts))
+
+
 def _format_constant(value: Any) -> str:
     """A constant as it is written in a script: null, or the literal of its own type."""
     return "null" if value is None else _handle_literal(value)
@@ -736,7 +745,7 @@ class ASTString(ASTTemplate):
             condition = self.visit(node.children[0])
             if " and " in condition or " or " in condition:
                 for op in (" and ", " or "):
-                    condition = condition.replace(op, f"{op}{nl}{tab * 5}")
+                    condition = _replace_outside_strings(condition, op, f"{op}{nl}{tab * 5}")
             body = f"{nl}{tab * 4}{condition}{nl}{tab * 2}"
         else:
             body = child_sep.join([self.visit(x) for x in node.children])
